@@ -664,17 +664,21 @@ impl World for ParserWorld {
     }
 
     fn sweep_len() -> u64 {
-        parser_sweep().len() as u64
+        parser_sweep_build(&|_| false, false).1
     }
     fn sweep_case(i: u64) -> Option<ParserCase> {
-        parser_sweep().into_iter().nth(i as usize).map(|(_, c)| c)
+        Self::sweep_some(&[i]).into_iter().next().map(|(_, c)| c)
     }
     fn sweep_some(indices: &[u64]) -> Vec<(u64, ParserCase)> {
-        let all = parser_sweep();
-        indices.iter().filter_map(|i| all.get(*i as usize).map(|(_, c)| (*i, c.clone()))).collect()
+        let mut idx: Vec<u64> = indices.to_vec();
+        idx.sort_unstable();
+        idx.dedup();
+        let set: std::collections::BTreeSet<u64> = idx.iter().copied().collect();
+        let (v, n) = parser_sweep_build(&|i| set.contains(&i), false);
+        idx.into_iter().filter(|i| *i < n).zip(v.into_iter().map(|(_, c)| c)).collect()
     }
     fn sweep_names() -> Vec<String> {
-        parser_sweep().into_iter().map(|(n, _)| n).collect()
+        parser_sweep_build(&|_| false, true).0.into_iter().map(|(n, _)| n).collect()
     }
 
     fn required_probes(prop: &str) -> &'static [&'static str] {
@@ -1633,6 +1637,11 @@ fn proto<'a>(ex: &mut Exec<'a, '_>, cur: H<'a>, kind: u8, p: &Pat) -> Res {
 /// and after one positioning step, on a handful of small texts (completely enumerated; the Miri
 /// tier runs a seed-chosen fraction of it in quick and all of it in thorough).
 pub fn parser_sweep() -> Vec<(String, ParserCase)> {
+    parser_sweep_build(&|_| true, true).0
+}
+
+/// `want(i)`: materialise cell i; `names`: format all names (both are costly under Miri)
+pub fn parser_sweep_build(want: &dyn Fn(u64) -> bool, names: bool) -> (Vec<(String, ParserCase)>, u64) {
     let texts = ["", "a", "ab,", " a \t", "é€", "😀a", "12", "-5x", "true", ",,", "a,b,", "aaab"];
     let pats: Vec<Pat> = vec![
         Pat::S(String::new()),
@@ -1682,6 +1691,7 @@ pub fn parser_sweep() -> Vec<(String, ParserCase)> {
     }
     let prefixes: Vec<Option<POp>> = vec![None, Some(POp::Skip { h, n: 1 }), Some(POp::SkipBack { h, n: 1 }), Some(POp::Split { h, p: Pat::S(",".into()) })];
     let mut out = Vec::new();
+    let mut idx: u64 = 0;
     for (ti, t) in texts.iter().enumerate() {
         for (pi, pre) in prefixes.iter().enumerate() {
             for (oi, op) in ops.iter().enumerate() {
@@ -1689,16 +1699,24 @@ pub fn parser_sweep() -> Vec<(String, ParserCase)> {
                 if pi > 0 && (oi + ti) % 3 != 0 {
                     continue;
                 }
-                let mut plan = Vec::new();
-                if let Some(p) = pre {
-                    plan.push(p.clone());
+                let wanted = want(idx);
+                idx += 1;
+                if !wanted && !names {
+                    continue;
                 }
-                plan.push(op.clone());
-                plan.push(POp::IntoError { h, kind: 2 });
+                let name = if names { format!("parser/text={:?}/prefix={}/{:?}", t, pi, op) } else { String::new() };
+                let mut plan = Vec::new();
+                if wanted {
+                    if let Some(p) = pre {
+                        plan.push(p.clone());
+                    }
+                    plan.push(op.clone());
+                    plan.push(POp::IntoError { h, kind: 2 });
+                }
                 let base = if (ti + oi) % 2 == 0 { 0 } else { 7 };
-                out.push((format!("parser/text={:?}/prefix={}/{:?}", t, pi, op), ParserCase { text: t.to_string(), base, plan }));
+                out.push((name, ParserCase { text: t.to_string(), base, plan }));
             }
         }
     }
-    out
+    (out, idx)
 }
